@@ -1,0 +1,453 @@
+//go:build verif
+
+// Verification hook (add-only, compiled only with `-tags verif`): a deterministic, single-threaded driver for
+// the real Voter / VoteDB, used by the /verif harnesses of properties C02 (no equivocation across restarts)
+// and C03 (escalation / commit only on a counted quorum).
+//
+// Nothing here changes the behaviour of the package; it only constructs the real objects with scripted
+// collaborators and exposes what they do.
+//
+// # Driver API
+//
+//	env := &ucon.VerifEnv{...}                      scripted collaborators (sortition, proposals, block cache,
+//	                                                look-back stake); every field may be changed between calls,
+//	                                                nil fields have the defaults documented on VerifEnv
+//	d := ucon.NewVerifVoter(db, sk, env)            a real Voter (NewVoter) on `db` (normally a MemDatabase);
+//	                                                the Voter's own event loop is NOT started: the driver calls
+//	                                                updateContext / processVoteMsg synchronously instead
+//	st := d.Context(round, index, step, cert)       = delivery of a ContextChangeEvent (step timer / new index / new round)
+//	st := d.Vote(ucon.VerifVoteMsg{...})            = delivery of one received vote (processVoteMsg with a MsgReceivedStatus);
+//	                                                the message is really signed with the sender's secp256k1 key
+//	d.Restart()                                     crash + restart: a new Voter (NewVoter -> NewVoteDB) on the same database
+//	d.CrashAtPut(n, after)                          arms a crash for the NEXT Context/Vote call: the process "dies"
+//	                                                at the n-th (1-based) db.Put of that call — before the write
+//	                                                (after=false) or right after it, i.e. between db.Put and the post of
+//	                                                the vote (after=true). The call then returns Crashed=true and the
+//	                                                driver has already restarted the Voter on the same database.
+//	d.Records()                                     the five persisted vote records (prevote, precommit, certificate, next1, next2)
+//	d.State()                                       the Voter's latches and the VoteDB's in-memory (round, index, marks)
+//	(*VoteDB).VerifState()                          the same for a bare VoteDB
+//
+// A VerifStep lists every event the call posted on the event mux: SendMessageEvent (the signed votes leaving the node,
+// decoded), RoundIndexChangeEvent, CommitEvent, UpdateExistedHeaderEvent, staking.Evidence.
+//
+// # Determinism
+//
+// event.TypeMux.AsyncPost starts one goroutine per event and delivers on an unbuffered channel. The driver owns the
+// mux and the only subscription, runs the call on the caller's goroutine, and then receives until every posting
+// goroutine has finished (the number of live goroutines is back at its value before the call; nothing sleeps and no
+// timeout decides anything). The order in which the events of ONE call arrive is scheduler-dependent and therefore
+// not reported: Events are sorted canonically. The driver must be used from one goroutine, and the caller must not
+// start or stop goroutines of its own during a call.
+//
+// Blocks: VerifBlock(hash) makes a block whose header Extra carries the abstract 32-byte hash the script uses for it;
+// CommitEvents are reported with that hash (VerifBlockHash).
+package ucon
+
+import (
+	"crypto/ecdsa"
+	"fmt"
+	"math/big"
+	"runtime"
+	"sort"
+
+	"github.com/youchainhq/go-youchain/bls"
+	"github.com/youchainhq/go-youchain/common"
+	"github.com/youchainhq/go-youchain/core/state"
+	"github.com/youchainhq/go-youchain/core/types"
+	"github.com/youchainhq/go-youchain/crypto"
+	"github.com/youchainhq/go-youchain/event"
+	"github.com/youchainhq/go-youchain/params"
+	"github.com/youchainhq/go-youchain/rlp"
+	"github.com/youchainhq/go-youchain/staking"
+	"github.com/youchainhq/go-youchain/youdb"
+)
+
+// Message statuses, exported for scripts.
+const (
+	VerifMsgOldRound      = int(msgOldRound)
+	VerifMsgOldRoundIndex = int(msgOldRoundIndex)
+	VerifMsgSame          = int(msgSame)
+	VerifMsgFuture        = int(msgFuture)
+	VerifMsgInvalid       = int(msgInvalid)
+)
+
+// VerifEnv is the scripted environment of a Voter.
+type VerifEnv struct {
+	// IsValidator answers Voter.isValidatorFn (own sortition for a vote kind; step = uint32(VoteType)).
+	// Default: selected, 1 sub-user, chamber, threshold 1.
+	IsValidator func(round *big.Int, roundIndex uint32, step uint32, lb params.LookBackType) (bool, *StepView)
+	// MaxPriority answers Voter.getMaxPriorityFn (the best proposal seen). Default: none.
+	MaxPriority func(round *big.Int, roundIndex uint32) (priority common.Hash, blockHash common.Hash, exist bool)
+	// BlockInCache answers Voter.blockInCacheFn. Default: VerifBlock(hash) for every hash.
+	BlockInCache func(blockHash, priority common.Hash) *types.Block
+	// Stake answers Voter.getStakeFn for the sender of a received vote. Default: threshold 1, chamber, no error.
+	Stake func(round *big.Int, addr common.Address, lb params.LookBackType) (threshold uint64, kind params.ValidatorKind, err error)
+	// VerifySortition answers Voter.verifySortitionFn for a received vote. Default: nil (accepted).
+	VerifySortition func(pub *ecdsa.PublicKey, data *SortitionData, lb params.LookBackType) error
+	// Version is what CurrentYouParams reports (default params.YouCurrentVersion). BLS is always reported disabled,
+	// so votes are signed with the secp256k1 key (the BLS signer itself is outside these properties).
+	Version params.YouVersion
+	// CertParamsErr makes CertificateParams fail (a certificate vote then cannot be signed).
+	CertParamsErr bool
+}
+
+// VerifEvent is one event posted on the mux by a call.
+type VerifEvent struct {
+	Type       string   // send | rice | commit | update | evidence
+	Kind       VoteType // send: the vote kind
+	Round      *big.Int
+	RoundIndex uint32
+	Hash       common.Hash // send/rice/update: block hash; commit: VerifBlockHash(block)
+	Priority   common.Hash // send/rice
+	Votes      uint32      // send: sub-users of the own vote
+	NPrecommit int         // commit/update: chamber precommits packed
+	NCert      int         // commit: chamber certificate votes packed
+}
+
+func (e VerifEvent) String() string {
+	return fmt.Sprintf("%s %d %v %d %x %x %d %d %d", e.Type, e.Kind, e.Round, e.RoundIndex, e.Hash[28:], e.Priority[28:], e.Votes, e.NPrecommit, e.NCert)
+}
+
+// VerifStep is the observable outcome of one driver call.
+type VerifStep struct {
+	Events  []VerifEvent
+	Err     string // Vote: error text returned by processVoteMsg ("" = nil)
+	Invalid bool   // Vote: the `invalid` flag returned by processVoteMsg
+	Crashed bool   // the armed crash point was reached (the Voter has been restarted)
+	Panic   string // the real code panicked on its own (the driver restarted the Voter, as a process would be)
+	Puts    int    // number of db.Put calls that completed during the call
+}
+
+// VerifRecord is a persisted vote record.
+type VerifRecord struct {
+	Kind       VoteType
+	Round      *big.Int
+	RoundIndex uint32
+	SigOK      bool
+}
+
+// VerifVoterState is the in-memory state the properties speak about.
+type VerifVoterState struct {
+	Round                                                 *big.Int
+	RoundIndex, Step                                      uint32
+	Precommitted, Committed, SentChangeEvent, Certificated bool
+	ShouldCert                                            bool
+	NextMarked, CurMarked, NextVoted                      *common.Hash // block hashes, nil when unset
+	DBRound                                               *big.Int
+	DBRoundIndex                                          uint32
+	DBMarks                                               map[VoteType]uint8
+	Wrappers                                              []RoundIndexHash
+}
+
+// VerifVoteMsg describes one received vote.
+type VerifVoteMsg struct {
+	Kind       VoteType
+	Round      *big.Int
+	RoundIndex uint32
+	Hash       common.Hash
+	Priority   common.Hash
+	Signer     *ecdsa.PrivateKey // signs the vote payload
+	ClaimedBy  *ecdsa.PrivateKey // the envelope sender (nil = Signer); a different key makes the address check fail
+	Votes      uint32
+	Status     int  // VerifMsg*
+	NilVote    bool // the message carries no SingleVote (only meaningful with Status = VerifMsgSame)
+}
+
+type verifCrash struct{}
+
+// VerifCrashDB wraps the node database: counts Puts and dies at an armed one.
+type VerifCrashDB struct {
+	youdb.Database
+	Puts    int  // completed Puts since Reset
+	armedAt int  // 0 = not armed
+	after   bool // crash after the write
+	PutLog  [][]byte
+}
+
+func (c *VerifCrashDB) Put(key, value []byte) error {
+	if c.armedAt > 0 && c.Puts+1 == c.armedAt && !c.after {
+		panic(verifCrash{})
+	}
+	err := c.Database.Put(key, value)
+	c.Puts++
+	c.PutLog = append(c.PutLog, common.CopyBytes(key))
+	if c.armedAt > 0 && c.Puts == c.armedAt && c.after {
+		panic(verifCrash{})
+	}
+	return err
+}
+
+type verifParams struct{ d *VerifVoter }
+
+func (f verifParams) CurrentCaravelParams() *params.CaravelParams {
+	yp := params.Versions[params.YouCurrentVersion]
+	yp.EnableBls = false
+	return &yp.CaravelParams
+}
+func (f verifParams) CertificateParams(round *big.Int) (*params.CaravelParams, error) {
+	if f.d.Env.CertParamsErr {
+		return nil, fmt.Errorf("verif: certificate params unavailable")
+	}
+	return f.CurrentCaravelParams(), nil
+}
+func (f verifParams) CurrentYouParams() *params.YouParams {
+	v := f.d.Env.Version
+	if v == 0 {
+		v = params.YouCurrentVersion
+	}
+	yp := params.Versions[v]
+	yp.EnableBls = false
+	return &yp
+}
+func (f verifParams) GetLookBackVldReader(cp *params.CaravelParams, num *big.Int, lbType params.LookBackType) (state.ValidatorReader, error) {
+	return state.New(common.Hash{}, common.Hash{}, common.Hash{}, state.NewDatabase(f.d.stateDB))
+}
+
+// VerifVoter drives one real Voter.
+type VerifVoter struct {
+	DB      *VerifCrashDB
+	Env     *VerifEnv
+	V       *Voter
+	sk      *ecdsa.PrivateKey
+	blsSk   bls.SecretKey
+	mux     *event.TypeMux
+	sub     *event.TypeMuxSubscription
+	stateDB youdb.Database
+	Addr    common.Address
+}
+
+// VerifBlock makes a block standing for the abstract hash h.
+func VerifBlock(h common.Hash) *types.Block {
+	return types.NewBlock(&types.Header{Number: big.NewInt(1), Extra: h.Bytes(), GasRewards: new(big.Int), Subsidy: new(big.Int)}, nil, nil)
+}
+
+// VerifBlockHash recovers the abstract hash of a VerifBlock.
+func VerifBlockHash(b *types.Block) common.Hash {
+	if b == nil {
+		return common.Hash{}
+	}
+	return common.BytesToHash(b.Extra())
+}
+
+// NewVerifVoter builds the driver and a first Voter on db.
+func NewVerifVoter(db youdb.Database, sk *ecdsa.PrivateKey, env *VerifEnv) *VerifVoter {
+	if env == nil {
+		env = &VerifEnv{}
+	}
+	blsSk, _ := bls.NewBlsManager().GenerateKey()
+	d := &VerifVoter{DB: &VerifCrashDB{Database: db}, Env: env, sk: sk, blsSk: blsSk, stateDB: youdb.NewMemDatabase(),
+		Addr: crypto.PubkeyToAddress(sk.PublicKey)}
+	d.mux = new(event.TypeMux)
+	d.sub = d.mux.Subscribe(SendMessageEvent{}, RoundIndexChangeEvent{}, CommitEvent{}, UpdateExistedHeaderEvent{}, staking.Evidence{})
+	d.Restart()
+	return d
+}
+
+// Restart = crash and restart of the process: every in-memory structure is rebuilt from the database.
+func (d *VerifVoter) Restart() {
+	d.DB.armedAt = 0
+	pm := verifParams{d}
+	d.V = NewVoter(d.DB, d.sk, d.blsSk, d.mux,
+		func(pub *ecdsa.PublicKey, data *SortitionData, lb params.LookBackType) error {
+			if d.Env.VerifySortition != nil {
+				return d.Env.VerifySortition(pub, data, lb)
+			}
+			return nil
+		},
+		func(round *big.Int, roundIndex uint32, step uint32, lb params.LookBackType) (bool, *StepView) {
+			if d.Env.IsValidator != nil {
+				return d.Env.IsValidator(round, roundIndex, step, lb)
+			}
+			return true, &StepView{SortitionProof: []byte{1}, SubUsers: 1, ValidatorType: params.KindChamber, Threshold: 1}
+		},
+		func(round *big.Int, roundIndex uint32) (common.Hash, common.Hash, bool) {
+			if d.Env.MaxPriority != nil {
+				return d.Env.MaxPriority(round, roundIndex)
+			}
+			return common.Hash{}, common.Hash{}, false
+		},
+		func(blockHash common.Hash, priority common.Hash) *types.Block {
+			if d.Env.BlockInCache != nil {
+				return d.Env.BlockInCache(blockHash, priority)
+			}
+			return VerifBlock(blockHash)
+		},
+		func(round *big.Int, addr common.Address, isProposer bool, lb params.LookBackType) (*big.Int, *big.Int, uint64, params.ValidatorKind, uint8, error) {
+			if d.Env.Stake != nil {
+				th, kind, err := d.Env.Stake(round, addr, lb)
+				return big.NewInt(1), big.NewInt(1), th, kind, params.ValidatorOnline, err
+			}
+			return big.NewInt(1), big.NewInt(1), 1, params.KindChamber, params.ValidatorOnline, nil
+		},
+		func(round *big.Int, kind params.ValidatorKind, lb params.LookBackType) uint64 { return 0 },
+		pm)
+	d.V.SetLookBackMgr(pm)
+}
+
+// CrashAtPut arms a crash for the next call (see the file comment).
+func (d *VerifVoter) CrashAtPut(n int, after bool) {
+	d.DB.armedAt = n
+	d.DB.after = after
+}
+
+func (d *VerifVoter) run(f func()) (st VerifStep) {
+	base := runtime.NumGoroutine()
+	d.DB.Puts = 0
+	d.DB.PutLog = d.DB.PutLog[:0]
+	func() {
+		defer func() {
+			if r := recover(); r != nil {
+				if _, ok := r.(verifCrash); ok {
+					st.Crashed = true
+				} else {
+					st.Panic = fmt.Sprint(r)
+				}
+			}
+		}()
+		f()
+	}()
+	st.Puts = d.DB.Puts
+	st.Events = d.drain(base)
+	d.DB.armedAt = 0
+	if st.Crashed || st.Panic != "" {
+		d.Restart()
+	}
+	return st
+}
+
+// drain receives until every goroutine started by AsyncPost during the call has delivered and exited.
+func (d *VerifVoter) drain(base int) []VerifEvent {
+	var evs []VerifEvent
+	for {
+		select {
+		case obj := <-d.sub.Chan():
+			if obj != nil {
+				evs = append(evs, verifDecode(obj.Data))
+			}
+		default:
+			if runtime.NumGoroutine() <= base {
+				sort.Slice(evs, func(i, j int) bool { return evs[i].String() < evs[j].String() })
+				return evs
+			}
+			runtime.Gosched()
+		}
+	}
+}
+
+func verifDecode(data interface{}) VerifEvent {
+	switch ev := data.(type) {
+	case SendMessageEvent:
+		out := VerifEvent{Type: "send", Kind: MsgCodeToVoteType(ev.Code), Round: ev.Round}
+		msg := &BlockHashWithVotes{}
+		if err := rlp.DecodeBytes(ev.Payload, msg); err == nil {
+			out.Round, out.RoundIndex, out.Hash, out.Priority = msg.Round, msg.RoundIndex, msg.BlockHash, msg.Priority
+			if msg.Vote != nil {
+				out.Votes = msg.Vote.Votes
+			}
+		} else {
+			out.Type = "send-undecodable"
+		}
+		return out
+	case RoundIndexChangeEvent:
+		return VerifEvent{Type: "rice", Round: ev.Round, RoundIndex: ev.RoundIndex, Hash: ev.BlockHash, Priority: ev.Priority}
+	case CommitEvent:
+		return VerifEvent{Type: "commit", Round: ev.Round, RoundIndex: ev.RoundIndex, Hash: VerifBlockHash(ev.Block),
+			NPrecommit: len(ev.ChamberPrecommits), NCert: len(ev.ChamberCerts)}
+	case UpdateExistedHeaderEvent:
+		return VerifEvent{Type: "update", Round: ev.Round, RoundIndex: ev.RoundIndex, Hash: ev.BlockHash, NPrecommit: len(ev.ChamberPrecommits)}
+	case staking.Evidence:
+		return VerifEvent{Type: "evidence"}
+	}
+	return VerifEvent{Type: fmt.Sprintf("other-%T", data)}
+}
+
+// Context delivers a ContextChangeEvent to the Voter.
+func (d *VerifVoter) Context(round *big.Int, roundIndex uint32, step uint32, cert bool) VerifStep {
+	return d.run(func() {
+		d.V.updateContext(ContextChangeEvent{Round: round, RoundIndex: roundIndex, Step: step, Certificate: cert})
+	})
+}
+
+// VerifSignVote signs the vote payload (blockHash ‖ round ‖ index) as a remote validator would (secp256k1 branch).
+func VerifSignVote(sk *ecdsa.PrivateKey, hash common.Hash, round *big.Int, roundIndex uint32) []byte {
+	payload := append(hash.Bytes(), append(round.Bytes(), uint32ToBytes(roundIndex)...)...)
+	sig, err := Sign(sk, payload)
+	if err != nil {
+		panic(err)
+	}
+	return sig
+}
+
+// Vote delivers one received vote to the Voter (what MessageHandler.HandleMsg / the cached-message replay do).
+func (d *VerifVoter) Vote(m VerifVoteMsg) VerifStep {
+	claimed := m.ClaimedBy
+	if claimed == nil {
+		claimed = m.Signer
+	}
+	data := &BlockHashWithVotes{Priority: m.Priority, BlockHash: m.Hash, Round: m.Round, RoundIndex: m.RoundIndex}
+	if !m.NilVote {
+		data.Vote = &SingleVote{Votes: m.Votes, Proof: []byte{1}, Signature: VerifSignVote(m.Signer, m.Hash, m.Round, m.RoundIndex)}
+	}
+	ev := VoteMsgEvent{Msg: &CachedVotesMessage{VotesData: data, addr: crypto.PubkeyToAddress(claimed.PublicKey)}, VType: m.Kind}
+	var err error
+	var invalid bool
+	st := d.run(func() { err, invalid = d.V.processVoteMsg(ev, MsgReceivedStatus(m.Status)) })
+	if err != nil {
+		st.Err = err.Error()
+	}
+	st.Invalid = invalid
+	return st
+}
+
+// Records reads the five persisted vote records of this validator.
+func (d *VerifVoter) Records() map[string]*VerifRecord {
+	out := map[string]*VerifRecord{}
+	for _, k := range []struct {
+		name string
+		t    VoteType
+		idx  uint8
+	}{{"prevote", Prevote, 1}, {"precommit", Precommit, 1}, {"certificate", Certificate, 1}, {"next1", NextIndex, 1}, {"next2", NextIndex, 2}} {
+		it := ReadVoteData(d.DB.Database, d.Addr, k.t, k.idx)
+		if it == nil {
+			continue
+		}
+		out[k.name] = &VerifRecord{Kind: it.VoteType, Round: it.Round, RoundIndex: it.RoundIndex, SigOK: VerifySignature(it, d.Addr)}
+	}
+	return out
+}
+
+// VerifState exposes the in-memory part of a VoteDB.
+func (v *VoteDB) VerifState() (round *big.Int, roundIndex uint32, marks map[VoteType]uint8) {
+	v.lock.Lock()
+	defer v.lock.Unlock()
+	marks = map[VoteType]uint8{}
+	for k, m := range v.mark {
+		marks[k] = m
+	}
+	if v.round != nil {
+		round = new(big.Int).Set(v.round)
+	}
+	return round, v.roundIndex, marks
+}
+
+// State exposes the Voter's latches.
+func (d *VerifVoter) State() VerifVoterState {
+	v := d.V
+	s := VerifVoterState{RoundIndex: v.roundIndex, Step: v.step, Precommitted: v.precommitted, Committed: v.committed,
+		SentChangeEvent: v.sentChangeEvent, Certificated: v.certificated, ShouldCert: v.shouldCert}
+	if v.round != nil {
+		s.Round = new(big.Int).Set(v.round)
+	}
+	h := func(m *MarkedBlockInfo) *common.Hash {
+		if m == nil {
+			return nil
+		}
+		x := m.BlockHash
+		return &x
+	}
+	s.NextMarked, s.CurMarked, s.NextVoted = h(v.nextMarked), h(v.curMarked), h(v.nextVoted)
+	s.DBRound, s.DBRoundIndex, s.DBMarks = v.voteCache.VerifState()
+	s.Wrappers = append(s.Wrappers, v.votesWrappers.contexts...)
+	return s
+}
